@@ -49,6 +49,10 @@ func (p *parser) parseStatementList() (list []ast.Statement) { //nolint:nonamedr
 }
 
 func (p *parser) parseStatement() ast.Statement {
+	if p.tooDeep() {
+		return &ast.BadStatement{From: p.idx, To: p.idx}
+	}
+	defer p.leaveNesting()
 	if p.token == token.EOF {
 		p.errorUnexpectedToken(p.token)
 		return &ast.BadStatement{From: p.idx, To: p.idx + 1}
